@@ -515,6 +515,29 @@ def composite_replay(cls_name):
         obs = {'outcome': 'return', 'value': {'demultiplex_returned': shape, 'loader_processed': processed, 'loader_yields': dict(yields),
                                               'target_lines': n_t, 'reject_lines': n_r}}
         failed = []
+        # pairs accepted by the transcriptome demultiplexer only, read-1 insert made of T's: bases and qualities stay aligned
+        tx_alias = getattr(s.transcriptome_demux, 'barcodeFileAlias', None)
+
+        class TxOnly(Parser):
+            def getIndexCorrectedBarcodeAndHammingDistance(self, barcode=None, alias=None, **k):
+                return ('7', barcode, 0) if alias == tx_alias else (None, None, None)
+        s2 = getattr(dm, cls_name)(barcodeFileParser=TxOnly(), indexFileParser=None, indexFileAlias=None)
+        tx_rows = []
+        for ins in ('', 'T', 'TT', 'TTTA', 'TTTT'):
+            seq1 = 'ACGTTGCAAGGCTA' + ins
+            q1 = ''.join(chr(40 + i) for i in range(len(seq1)))
+            recs2 = [fq.FastqRecord('@NS500:1:FC:1:11101:100:200 1:N:0:ACGT', seq1, '+', q1),
+                     fq.FastqRecord('@NS500:1:FC:1:11101:100:200 2:N:0:ACGT', r2, '+', 'H' * len(r2))]
+            try:
+                o2 = s2.demultiplex(recs2)
+            except Exception as e:      # noqa
+                tx_rows.append({'insert': ins, 'raised': type(e).__name__})
+                continue
+            es, eq = o2[0].sequence, o2[0].qualities
+            tx_rows.append({'insert': ins, 'sequence': es, 'qualities': eq})
+            if len(es) != len(eq) or not seq1.endswith(es) or (es and q1[len(q1) - len(es):] != eq):
+                failed.append({'clause': 'transcriptome_pair_pruned_of_leading_T', 'insert': ins, 'sequence': es, 'qualities': eq})
+        obs['value']['transcriptome_only_pairs'] = tx_rows
         if not (isinstance(out, list) and len(out) == 2):
             failed.append({'clause': 'one_output_per_mate', 'returned': shape})
         if n_t != [4, 4] or n_r != [0, 0]:
